@@ -242,21 +242,15 @@ class PeekAll(Terminal):
         gen.writeln("# <PeekAll>")
 
         start_var = gen.new_temp("start")
-        tmp_pairs = gen.new_temp("pairs")
 
         gen.writeln(f"{start_var} = state.pos")
-        gen.writeln(f"{tmp_pairs}: list[Pair] = []")
         gen.writeln(f"{matched_var} = True")
 
-        gen.writeln("for i, literal in enumerate(reversed(state.user_stack)):")
+        gen.writeln("for literal in reversed(state.user_stack):")
         with gen.block():
             gen.writeln("if state.input.startswith(literal, state.pos):")
             with gen.block():
                 gen.writeln("state.pos += len(literal)")
-                gen.writeln(f"{matched_var} = True")
-                gen.writeln("if i < len(state.user_stack):")
-                with gen.block():
-                    gen.writeln(f"parse_trivia(state, {tmp_pairs})")
             gen.writeln("else:")
             with gen.block():
                 gen.writeln(f"state.pos = {start_var}")
